@@ -130,8 +130,47 @@ def run(ctx):
         if got != want:
             ctx.violation('use before / after (re)definition: expected words %r, got %r' % (want, got), src=c['src'], opts=c['opts'],
                           D='', X=c['src'], case=semrun.pack(c))
+    reload_cases(ctx)
+
+def reload_cases(ctx):
+    """the same definition file read twice with a redefinition in between: every \\LTinput reads the file again
+    (metamorphic: the document with the file's text pasted in gives the same words)"""
+    rng = ctx.rng
+    names = gen.Names(rng)
+    out = []
+    for _ in range(ctx.scale(40, 800)):
+        w = [names.word() for _ in range(12)]
+        k = rng.choice([0, 1])
+        filetext = ('\\def\\rx#1{(%s#1)}\n' % w[0]) if k else ('\\newcommand{\\rx}[1]{%s #1}\n' % w[0])
+        redef = rng.choice(['\\def\\rx#1{(%s#1)}', '\\renewcommand{\\rx}[1]{%s #1}']) % w[1]
+        parts = ['@IN@', '%s \\rx{%s}.\n' % (w[2], w[3]), redef + '\n', '%s \\rx{%s}.\n' % (w[4], w[5]), '@IN@', '%s \\rx{%s}, \\rx %s.\n' % (w[6], w[7], w[8][1])]
+        if rng.random() < 0.4:
+            parts += [redef + '\n', '@IN@', '%s \\rx{%s}' % (w[9], w[10])]
+        a = ''.join(p if p != '@IN@' else '\\LTinput{rx.tex}\n' for p in parts)
+        b = ''.join(p if p != '@IN@' else filetext for p in parts)
+        out.append(({'src': a, 'files': {'rx.tex': filetext}, 'opts': {'pack': '*'}, 'multi': False, 'want_toks': False},
+                    {'src': b, 'opts': {'pack': '*'}, 'multi': False, 'want_toks': False}))
+    flat = [c for pair in out for c in pair]
+    res = ctx.pmap(t2t.run_case, flat)
+    for i, (ca, cb) in enumerate(out):
+        ra, rb = res[2 * i], res[2 * i + 1]
+        ctx.case(ca['src']); ctx.count('reload_cases')
+        if ra['outcome'] != 'ok' or rb['outcome'] != 'ok':
+            continue
+        wa = [x for x, _ in semrun.out_words(ra['txt'])]; wb = [x for x, _ in semrun.out_words(rb['txt'])]
+        if wa != wb:
+            ctx.violation('a definition file read again with \\LTinput after a redefinition: words %r, with the file pasted in place %r' % (wa, wb),
+                          src=ca['src'], opts=ca['opts'], files=ca['files'], pasted=cb['src'], kind='reload', D='', X=ca['src'])
+    corr.t2t(ctx, [c for c, _ in out], [res[2 * i] for i in range(len(out))], proj=('outcome', 'text'), limit=len(out))
 
 def judge_witness(w):
+    if w.get('kind') == 'reload':
+        ra = t2t.run_case({'src': w['src'], 'files': w['files'], 'opts': w['opts'], 'multi': False, 'want_toks': False})
+        rb = t2t.run_case({'src': w['pasted'], 'opts': w['opts'], 'multi': False, 'want_toks': False})
+        if ra['outcome'] == 'ok' and rb['outcome'] == 'ok':
+            wa = [x for x, _ in semrun.out_words(ra['txt'])]; wb = [x for x, _ in semrun.out_words(rb['txt'])]
+            return [] if wa == wb else ['words %r, with the file pasted in place %r' % (wa, wb)]
+        return []
     c = {'D': w['D'], 'X': w['X'], 'opts': w.get('opts') or {}, 'ast': {'t': 'seq', 'items': []}}
     return [f for f in judge(c, run_one(c)) if 'substitution' not in f]
 
